@@ -258,7 +258,7 @@ QUICK_ZONES = ["Europe/Paris", "Europe/Berlin", "Europe/Helsinki", "Europe/Vienn
                "Europe/Budapest", "Europe/London", "Europe/Brussels", "Europe/Rome", "Europe/Bucharest",
                "Asia/Kuala_Lumpur", "Africa/Casablanca", "Africa/Tunis", "Africa/Algiers", "Africa/Dakar",
                "Asia/Kolkata", "Asia/Kathmandu", "Australia/Lord_Howe", "Pacific/Apia", "Pacific/Chatham",
-               "America/New_York", "America/Sao_Paulo", "Asia/Tehran", "UTC"]
+               "America/New_York", "America/Sao_Paulo", "Asia/Tehran", "UTC", "Asia/Calcutta", "Australia/NSW", "America/Buenos_Aires", "Etc/GMT-3", "EST5EDT"]
 
 
 def plan(tier, seed):
